@@ -238,6 +238,10 @@ class EVPN(NLRI):
             ld_value_hex = struct.pack('!I', ld_value)
             esi_data_hex = b'\x05' + as_num_hex + ld_value_hex + b'\x00'
 
+        if len(esi_data_hex) != 10:
+            # unknown ESI type, a type 0 value beyond 9 octets, a MAC address that is not 6 octets:
+            # every field behind the ESI would be shifted
+            raise ValueError('the Ethernet Segment Identifier is 10 octets long')
         return esi_data_hex
 
 
